@@ -420,9 +420,9 @@ Section PoolProofs.
       destruct (maxsize <? N.of_nat (length (p_ids p)) + N.of_nat (length g)) eqn:El.
       - destruct (is_sp_single g) eqn:Esp.
         + destruct (p_over p) eqn:Eo; inversion Ecs; subst p1 ok.
-          * rewrite Eo. repeat split; try reflexivity; try lia; try (intros; discriminate).
-          * cbn [set_over p_pending p_ids p_eval p_npwb p_over]. rewrite Eo.
-            repeat split; try reflexivity; try (unfold b2n; lia). intros _. right. auto.
+          * rewrite ?Eo. repeat split; try reflexivity; try lia; try (intros; discriminate).
+          * cbn [set_over p_pending p_ids p_eval p_npwb p_over]. rewrite ?Eo.
+            repeat split; try reflexivity; try (unfold b2n; lia); try (intros _; right; auto).
         + inversion Ecs; subst p1 ok. repeat split; try reflexivity; try lia; try (intros; discriminate).
       - inversion Ecs; subst p1 ok. repeat split; try reflexivity; try lia. intros _. left. split; [|reflexivity].
         apply N.ltb_ge in El. fold p in Hids. rewrite Hids in El. rewrite txcount_flat. exact El. }
@@ -434,18 +434,19 @@ Section PoolProofs.
       - intros c b Hq. rewrite Q3 in Hq. auto.
       - fold p in Hep. lia. }
     destruct ok; cbn [negb] in Hrem.
-    2:{ inversion Hrem; subst. apply Inv1; auto. }
+    2:{ inversion Hrem; subst. apply Inv1; auto; congruence. }
     destruct (p_eval p1) as [[c b]|] eqn:Eev.
-    2:{ inversion Hrem; subst. apply Inv1; auto. }
+    2:{ inversion Hrem; subst. apply Inv1; auto; congruence. }
     destruct (check_fee tstpf tspsnd tfee tenc expf p1 g) as [p2 fok] eqn:Ecf.
     assert (Hcf : p_pending p2 = p_pending p1 /\ p_ids p2 = p_ids p1 /\ p_eval p2 = p_eval p1 /\
                   p_npwb p2 = p_npwb p1 /\ p_over p2 = p_over p1).
     { unfold TxPool.check_fee in Ecf. destruct (fee_exempt tstpf tspsnd tfee g); inversion Ecf; subst; cbn; auto. }
     destruct Hcf as [Hp2 [Hi2 [He2 [Hn2 Ho2]]]].
     destruct fok; cbn [negb] in Hrem.
-    2:{ inversion Hrem; subst. apply Inv1; try congruence. rewrite Ho2; assumption. }
+    2:{ inversion Hrem; subst. apply Inv1; try congruence. }
     destruct (add c b (p_npwb p2) g) as [[[c' b'] n'] err] eqn:Eadd.
-    rewrite He1 in Eev. fold p in Hrep. destruct (Hrep _ _ Eev) as [c0 [br [nr [Hst [Hr Hl]]]]].
+    assert (Hevp : p_eval p = Some (c, b)) by congruence.
+    destruct (Hrep _ _ Hevp) as [c0 [br [nr [Hst [Hr Hl]]]]].
     rewrite Hn2, Hn1 in Eadd.
     destruct err as [e|].
     - (* rejected by the evaluator: only (bytes, npwb) may have moved forward *)
@@ -469,7 +470,7 @@ Section PoolProofs.
       + intros c1 b1 Hq. inversion Hq; subst. exists c0, br', nr'. auto.
       + rewrite nonsp_app. destruct (Hok eq_refl) as [[Hsz _] | [Hsp _]].
         * pose proof (count_split (p_pending p)). pose proof (count_split_single g).
-          rewrite txcount_single in H0. fold p in Hns. lia.
+          rewrite txcount_single in H0. fold p in Hns. unfold group in *. lia.
         * unfold nonsp at 2. cbn [filter]. rewrite Hsp. cbn. fold p in Hns. lia.
       + rewrite txcount_app, txcount_single. fold p in Hep.
         destruct (Hok eq_refl) as [[Hsz Hov] | [Hsp [Hov Hov1]]].
@@ -574,7 +575,8 @@ Section PoolProofs.
     destruct (add c b (p_npwb p2) g) as [[[c' b'] n'] [e|]] eqn:Eadd; [discriminate|].
     inversion Hrem; subst; clear Hrem. cbn [p_pending set_eval p_eval].
     rewrite Hcf, Hp1. split; [reflexivity|].
-    rewrite He1 in Eev. destruct (inv_replay _ HI _ _ Eev) as [c0 [br [nr [Hs [Hr _]]]]].
+    assert (Hevp : p_eval (s_pool s) = Some (c, b)) by congruence.
+    destruct (inv_replay _ HI _ _ Hevp) as [c0 [br [nr [Hs [Hr _]]]]].
     exists c0, c, c'. repeat split; auto.
     - eapply replay_capply; eauto.
     - eapply add_ok_capply; eauto.
@@ -596,10 +598,10 @@ Section PoolProofs.
   Lemma recompute_ledger : forall p committed, p_ledger (recompute p committed) = p_ledger p.
   Proof.
     intros p committed. unfold TxPool.recompute. destruct (start (p_ledger p)); cbn; auto.
-    destruct (fold_left _ _ _) as [[[c b] n] rem]. reflexivity.
+    destruct (fold_left _ _ _) as [[[c1 b1] n1] rem]. reflexivity.
   Qed.
 
-  Lemma remember_ledger : forall p g p' r, remember p g = (p', r) -> p_ledger p' = p_ledger p.
+  Lemma remember_ledger : forall (p : pool) g p' r, remember p g = (p', r) -> p_ledger p' = p_ledger p.
   Proof.
     intros p g p' r H. unfold TxPool.remember in H.
     destruct (check_size tstpf maxsize p g) as [p1 ok] eqn:Ecs.
